@@ -342,10 +342,16 @@ impl RegretParams {
             strat.fill(0.0);
             strat[ind] = 1.0;
         } else {
+            // shift by the regret with the largest weighted value so the exponentials can't
+            // overflow; for a negative weight that's the minimum regret
             let max = cum_reg
                 .into_floats_mut()
                 .map(|&mut v| v)
-                .reduce(f64::max)
+                .reduce(if self.no_positive > 0.0 {
+                    f64::max
+                } else {
+                    f64::min
+                })
                 .unwrap();
             let norm: f64 = cum_reg
                 .into_floats_mut()
